@@ -20,7 +20,28 @@ def run_reject(case, world, idx, op, results, rep, cpus):
     expect = op['expect']
     corr = op['corruption']
     comp = op_component(world, base)
-    out = run_call(world, base, idx, base.get('plan'), None, results, cpus)
+    undo = None
+    inp = base.get('inplace')
+    if inp:
+        df = world.tables[base[inp['side']]]
+        kcol = base[inp['side'] + '_key']
+        if len(df) < 2 or kcol not in df.columns:
+            return []
+        ci = list(df.columns).index(kcol)
+        i = inp['i'] % len(df)
+        j = inp['j'] % len(df)
+        if i == j:
+            j = (i + 1) % len(df)
+        orig = df.iloc[j, ci]
+        df.iloc[j, ci] = df.iloc[i, ci]
+        undo = (df, j, ci, orig)
+    try:
+        out = run_call(world, base, idx, base.get('plan'), None, results,
+                       cpus)
+    finally:
+        if undo:
+            df, j, ci, orig = undo
+            df.iloc[j, ci] = orig
     rep['lib_calls'] += 1
     rep['faults']['reject:configured'] += 1
     rep['stats']['reject:' + corr] += 1
